@@ -88,6 +88,9 @@ def run_chunk(exe, backend, variant, scenario, base, first, count, opts, samples
                     records.append(json.loads(line))
                 except ValueError:
                     continue
+                if records[-1].get("status") == "violation" and records[-1]["viol"]["cls"] == "leak":
+                    m = re.search(r"ERROR: LeakSanitizer.*", err, re.S)
+                    records[-1]["stderr"] = clip(m.group(0) if m else err, 6000, 500)
                 done += 1
                 cur = None
             elif line.startswith("END "):
@@ -591,7 +594,9 @@ def do_check(prop, tier, seed, extra):
             r = v["rec"]
             cls, oracle = r["viol"]["cls"], r["viol"]["oracle"]
             detail = r["viol"]["detail"]
-            text = "%s|%s|%s" % (cls, oracle, detail)
+            if r.get("stderr"):
+                detail += "\n" + r["stderr"]
+            text = "%s|%s|%s" % (cls, oracle, r["viol"]["detail"])
             plan = r["plan"]
             isdeath = False
         k = match_known(known, prop, text)
@@ -612,7 +617,7 @@ def do_check(prop, tier, seed, extra):
         else:
             ok = same_violation(rec2, cls, oracle)
         if not ok:
-            log("SIM-ERROR: violation did not reproduce from its plan (class %s oracle %s): %s" % (cls, oracle, detail[:500]))
+            log("SIM-ERROR: violation did not reproduce from its plan (class %s oracle %s, batch %s): %s" % (cls, oracle, b.get("name"), detail[:3000]))
             gate_fail = True
             continue
         mplan, nruns = minimise(exe, b["backend"], b["variant"], plan, cls, oracle, budget=60 if tier == "quick" else 200, death=isdeath)
